@@ -357,6 +357,21 @@ def build_catalogue():
     op("tms.roundtrip", "parse")(lambda: ((lambda: (HEX("000ea00000840d000a00540045005300"),)), (lambda d: _tms(TextMessagingService, d))))
     op("ars.roundtrip", "parse")(lambda: ((lambda: (HEX("0010F5000231310939393939393939393900"),)), (lambda d: AutomaticRegistrationService.from_bytes(d).as_bytes())))
     op("lp.default_ctor_gps")(lambda: ((lambda: ()), (lambda: _lp_default(LocationProtocol))))
+    # ---- results that must not depend on the process environment (time zone, hash seed, the date the library was imported) -------
+    import datetime as _dtm
+    from okdmr.dmrlib.hytera.pdu.text_message_protocol import TextMessageProtocol as _TMP, TMPService as _TMPS
+    from okdmr.dmrlib.hytera.pdu.radio_ip import RadioIP as _RIP
+    import okdmr.dmrlib.hytera.pdu.location_protocol as _lpm
+    op("mbxml.write_infotime_aware_utc")(lambda: ((lambda: ()), (lambda: MBXML.write_infotime(_dtm.datetime(2024, 2, 29, 12, 34, 56, tzinfo=_dtm.timezone.utc)))))
+    op("mbxml.write_infotime_aware_0530")(lambda: ((lambda: ()), (lambda: MBXML.write_infotime(
+        _dtm.datetime(2024, 2, 29, 23, 59, 59, tzinfo=_dtm.timezone(_dtm.timedelta(hours=5, minutes=30)))))))
+    op("mbxml.write_infotime_naive")(lambda: ((lambda: ()), (lambda: MBXML.write_infotime(_dtm.datetime(2024, 2, 29, 12, 34, 56)))))
+    op("tmp.message_without_request_id")(lambda: ((lambda: ()), (lambda: _TMP(opcode=_TMPS.SendPrivateMessage, source_ip=_RIP(radio_id=1001), destination_ip=_RIP(radio_id=1002),
+                                                                                   text_data="hello".encode("utf-16-le")).as_bytes())))
+    op("tmp.short_data_without_request_id")(lambda: ((lambda: ()), (lambda: _TMP(opcode=_TMPS.PrivateShortData, source_ip=_RIP(radio_id=1001), destination_ip=_RIP(radio_id=1002),
+                                                                                      short_data=b"\x01\x02").as_bytes())))
+    # "no fix" is stamped with the date of the call, not with the date the module was imported (true under every clock)
+    op("gps.zero_is_stamped_with_the_date_of_the_call", "parse")(lambda: ((lambda: ()), (lambda: _lpm.GPSData.zero().greenwich_date == _lpm.date.today())))
     # ---- calls that fail (wrong length / wrong type): the error is the stable outcome, and whatever state the failed call leaves
     #      behind must not show in the next valid call (all pairs (failing, valid) are part of the pair enumeration)
     op("fail.bptc.encode_95", "shared")(lambda: ((lambda: (ba(M96[:95]),)), (lambda b: BPTC19696.encode(b))))
@@ -667,7 +682,7 @@ def fresh_in_new_interpreter(fake_date=None):
             "_t.time = lambda: %f\n" % (fake_date[0], fake_date[1], fake_date[2], fake_date[3])
         )
     code += "from mc import env\nimport checks.c19_purity as c\nc.dump_fresh()\n"
-    e = dict(os.environ, PYTHONHASHSEED=str(fake_date[4] if fake_date else 1))
+    e = dict(os.environ, PYTHONHASHSEED=str(fake_date[4] if fake_date else 1), TZ=(fake_date[5] if fake_date and len(fake_date) > 5 else "UTC"))
     r = subprocess.run([sys.executable] + (["-O"] if sys.flags.optimize else []) + ["-B", "-c", code], capture_output=True, text=True, env=e, cwd=env.VERIF)
     for line in r.stdout.splitlines():
         if line.startswith("FRESH-JSON:"):
@@ -692,8 +707,8 @@ def run(only=None):
         "in-place Hamming repair (check_and_correct) is the documented exception to buffer immutability",
     ]
     # ---- fresh reference -----------------------------------------------------------------------------
-    s = rep.sub("fresh_reference", "every op alone in a forked child of the pristine parent, compared with a brand-new interpreter (other PYTHONHASHSEED) "
-                                   "and with two fresh interpreters running under different fake dates/clocks")
+    s = rep.sub("fresh_reference", "every op alone in a forked child of the pristine parent, compared with a brand-new interpreter (other PYTHONHASHSEED, TZ=UTC "
+                                   "while this process runs in another zone) and with two fresh interpreters running under different fake dates/clocks and zones")
     for n, r in zip(names, par.pmap(lambda n: run_sequence_isolated([n])[0], names)):
         FRESH[n] = r
         if not r[1]:
@@ -703,8 +718,8 @@ def run(only=None):
 
     with _cf.ThreadPoolExecutor(max_workers=3) as ex:
         futs = [("new_interpreter", ex.submit(fresh_in_new_interpreter)),
-                ("fake_date_2001", ex.submit(fresh_in_new_interpreter, (2001, 2, 3, 981_000_000.0, 11))),
-                ("fake_date_2038", ex.submit(fresh_in_new_interpreter, (2038, 11, 30, 2_174_000_000.0, 12)))]
+                ("fake_date_2001", ex.submit(fresh_in_new_interpreter, (2001, 2, 3, 981_000_000.0, 11, "America/Adak"))),
+                ("fake_date_2038", ex.submit(fresh_in_new_interpreter, (2038, 11, 30, 2_174_000_000.0, 12, "Asia/Kolkata")))]
         others = [(label, f.result()) for label, f in futs]
     for label, ref in others:
         for n in names:
